@@ -4,11 +4,23 @@ package udpsink
 
 import (
 	"net"
+	"os"
 	"sync"
 	"time"
 )
 
-// Sink receives datagrams on 127.0.0.1:<ephemeral>.
+// processIP is a loopback address private to this process (the whole of
+// 127.0.0.0/8 is local on Linux). Several test processes run at the same time
+// and some cases deliberately keep sending to a port whose listener is gone;
+// with a shared address such a datagram could land in another process's fresh
+// sink that happened to get the same ephemeral port and be taken for a
+// corrupted message there.
+func processIP() net.IP {
+	pid := os.Getpid()
+	return net.IPv4(127, byte(1+pid%250), byte((pid/250)%250), byte(1+(pid/62500)%250))
+}
+
+// Sink receives datagrams on <process loopback address>:<ephemeral>.
 type Sink struct {
 	Conn *net.UDPConn
 	Addr string
@@ -28,7 +40,7 @@ func (s *Sink) Port() int { return s.Conn.LocalAddr().(*net.UDPAddr).Port }
 // NewAt opens a sink on a specific loopback port (0 = ephemeral); used to
 // bring a destination back after it went away.
 func NewAt(port int) (*Sink, error) {
-	c, err := net.ListenUDP("udp4", &net.UDPAddr{IP: net.IPv4(127, 0, 0, 1), Port: port})
+	c, err := net.ListenUDP("udp4", &net.UDPAddr{IP: processIP(), Port: port})
 	if err != nil {
 		return nil, err
 	}
